@@ -31,9 +31,9 @@ struct PerType {
     }
     static void unary(const std::vector<S>& K, std::true_type) {
 #ifdef VX_EXH_QUICK
-        const bool exhaustive = opt().thorough || V::width == max_width<S>::value;
+        const bool exhaustive = exh32() || (!opt().thorough && V::width == max_width<S>::value);
 #else
-        const bool exhaustive = opt().thorough;
+        const bool exhaustive = exh32();
 #endif
         if (exhaustive) unary_ops(erase<S>(DomFull1<S>()), K);
         else { std::vector<std::uint64_t> u = alphabet_F32L(), h = alphabet_F32H(); u.insert(u.end(), h.begin(), h.end()); sort_unique(u); unary_ops(erase<S>(DomList1<S>(as_scalars<S>(u), "F32L u F32H")), K); }
